@@ -547,3 +547,25 @@ Fixpoint safe_run (ms : list micro) (s : pst) : bool :=
 Definition pub_ok (e : pev) : bool :=
   match e with PPubSelf => false | PSwitchPlainThread => false | _ => true end.
 Definition pub_check (evs : list pev) : bool := forallb pub_ok evs.
+
+(* ------------------------------------------------------------------ *)
+(** * witness data for the floating-point control state (C03_fp_control_refuted)
+
+    [fp_witness_site] is myth_swap_context as compiled on the pinned tree (Properties_C03.v shows
+    that it has the same code as the pinned site_2).  Thread A runs with round-upward
+    (MXCSR 0x5F80, x87 CW 0x0B7F); the thread that runs on the worker in between sets
+    round-downward (MXCSR 0x3F80, x87 CW 0x077F) and overwrites every integer register. *)
+Definition fp_witness_site : site :=
+  mkSite 0
+    [ISubRsp 128; IPush RBP; IPush RBX; IPush R12; IPush R13; IPush R14; IPush R15; ISubRsp 8;
+     ILea 1 RBP; IPush RBP; IStoreRsp RAX; ILoadRsp RDX; IPop RAX; IJmp RAX; ILabel 1;
+     IAddRsp 8; IPop R15; IPop R14; IPop R13; IPop R12; IPop RBX; IPop RBP; IAddRsp 128]
+    [RAX; RCX; RDX; RSI; RDI] [RAX; RDX] [R8; R9; R10; R11] true true.
+
+Definition FP_UPWARD : fpctl := mkFp 24448 2943.      (* 0x5F80, 0x0B7F *)
+Definition FP_DOWNWARD : fpctl := mkFp 16256 1919.    (* 0x3F80, 0x077F *)
+
+(** what the other thread leaves behind: the context cell address in the load register so that
+    the tail resumes A's context, garbage in every other register, memory untouched *)
+Definition fp_witness_env (loadreg : reg) (ctxaddr : Z) (s1 : state) : state :=
+  mkState (fun r => if reg_eqb r loadreg then ctxaddr else 3735879680 + reg_idx r) (mem s1).
